@@ -218,4 +218,12 @@ def r5(F, R):
     R.floor(2)
 
 
-RULES = [("R1", r1, None), ("R2", r2, None), ("R3", r3, None), ("R4", r4, None), ("R5", r5, None)]
+def r6(F, R):
+    """`--concurrency` overrides and `--fail-fast` adds to the builder settings (same rules as C06.R1 and C08.R2/R5)."""
+    from . import c06, c08
+    c06.r1(F, R)
+    c08.r2(F, R)
+    c08.r5(F, R)
+
+
+RULES = [("R6", r6, None), ("R1", r1, None), ("R2", r2, None), ("R3", r3, None), ("R4", r4, None), ("R5", r5, None)]
